@@ -1,0 +1,21 @@
+// Copyright 2024 The Go Authors. All rights reserved.
+// Use of this source code is governed by a BSD-style
+// license that can be found in the LICENSE file.
+
+//go:build verif
+
+// Contracts (//@ lines) for package chartconfig; compiled only with -tags verif.
+
+package chartconfig
+
+// Parse: every slice expression and index of the line scanner is in range for
+// every input text. (The reflection calls that store field values are outside
+// the verifier's model: their results are arbitrary, their panics not decided.)
+//@ contract Parse
+//@   allows panic#1: initialisation check: every ChartConfig field has a parser (fixed by the source, not by the input)
+//@   at call TypeOf#1: after assume result != nil
+//@   at call Field#1: after assume result.Type != nil
+//@   loop 1: invariant fields != nil && typ != nil && (forall k string :: in(k, fields) ==> fields[k].Type != nil)
+//@   loop 2: invariant fields != nil && set != nil && inProgress != nil && (forall k string :: in(k, fields) ==> fields[k].Type != nil)
+//@   loop 3: invariant fields != nil && set != nil && inProgress != nil && (key == "" || in(key, fields))
+//@   modifies heap
